@@ -35,7 +35,7 @@ CRAFTED = ["'; DROP TABLE x; --", "%s", "%d%%", "{0}", "{left}", "{}", "%(x)s", 
 
 def plan(tier, seed):
   return {'nshards': 16, 'timeout_s': 5400 if tier == 'thorough' else 1200,
-          'params': {'n_pairs': 1200 if tier == 'thorough' else 110, 'n_random': 2500 if tier == 'thorough' else 110, 'rlimit_as_gb': 3}}
+          'params': {'n_pairs': 600 if tier == 'thorough' else 110, 'n_random': 800 if tier == 'thorough' else 110, 'rlimit_as_gb': 3}}
 
 
 def logica_literal(s, form):
